@@ -14,6 +14,7 @@ If not, see <https://www.gnu.org/licenses/>.
 from __future__ import annotations
 from typing import Optional, Mapping, Any
 
+import os
 import shutil
 import json
 
@@ -66,7 +67,9 @@ def _write_data(sid_path: Path, data: Mapping[str, Any]) -> bool:
                 data = previous_data
 
         # dumping data, converting to string if not serializable
-        data_path.write_text(json.dumps(data, indent=4, default=str))
+        tmp_path = data_path.with_name(data_path.name + ".tmp")
+        tmp_path.write_text(json.dumps(data, indent=4, default=str))
+        os.replace(tmp_path, data_path)  # atomic: a crash leaves the old or the new data
 
         return data_path.exists()
 
